@@ -807,8 +807,8 @@ func (m *endpointManager) resolveWorkloadEndpoints() {
 					if !m.cfg.bpfEnabled {
 						m.filterTable.RemoveChains(m.activeWlIDToChains[id])
 						if m.hasSourceSpoofingConfiguration(oldWorkload.Name) {
-							logCxt.Debugf("Removing RPF configuration for workload %s", workload.Name)
-							delete(m.sourceSpoofingConfig, workload.Name)
+							logCxt.Debugf("Removing RPF configuration for old interface %s", oldWorkload.Name)
+							delete(m.sourceSpoofingConfig, oldWorkload.Name)
 							m.rpfSkipChainDirty = true
 						}
 					}
